@@ -25,12 +25,14 @@ import sys
 import time
 
 VERIF = os.path.dirname(os.path.dirname(os.path.abspath(__file__)))
-WORK = os.path.join(VERIF, ".work")
-KANI_DIR = os.path.join(VERIF, "kani")
+# development only: a scratch copy of the harness crates / work dir / source tree (registered commands never set these)
+WORK = os.environ.get("VERIF_DEV_WORK") or os.path.join(VERIF, ".work")
+REPO = os.environ.get("VERIF_REPO_SRC", "/repo")
+KANI_DIR = os.environ.get("VERIF_DEV_KANI") or os.path.join(VERIF, "kani")
 KANI_TARGET = os.path.join(WORK, "kani-target")
-REPLAY_DIR = os.path.join(VERIF, "replay")
+REPLAY_DIR = os.environ.get("VERIF_DEV_REPLAY") or os.path.join(VERIF, "replay")
 REPLAY_TARGET = os.path.join(WORK, "replay-target")
-EVIDENCE = os.path.join(VERIF, "evidence")
+EVIDENCE = os.path.join(WORK, "evidence") if os.environ.get("VERIF_DEV_WORK") else os.path.join(VERIF, "evidence")
 REPLAYS = os.path.join(EVIDENCE, "replays")
 LOGS = os.path.join(WORK, "logs")
 
@@ -53,7 +55,7 @@ def sync_lockfiles():
     for d in (KANI_DIR, REPLAY_DIR):
         lock = os.path.join(d, "Cargo.lock")
         if not os.path.exists(lock):
-            shutil.copy("/repo/Cargo.lock", lock)
+            shutil.copy(REPO + "/Cargo.lock", lock)
 
 
 def build_replay(profile="dev"):
@@ -421,7 +423,7 @@ def regenerate_mir():
            "-Zunpretty=mir", "-C", "debug-assertions=off", "-C", "overflow-checks=on", "--cfg", nonce, "-A", "unexpected_cfgs"]
     t = time.time()
     with open(out, "w") as f:
-        p = subprocess.run(cmd, cwd="/repo", env=ENV, stdout=f, stderr=subprocess.PIPE, text=True)
+        p = subprocess.run(cmd, cwd=REPO, env=ENV, stdout=f, stderr=subprocess.PIPE, text=True)
     if p.returncode != 0 or os.path.getsize(out) < 1000:
         log(p.stderr[-3000:])
         return None, time.time() - t
@@ -500,6 +502,12 @@ TIERS = {
 
 
 def decide(prop, tier, harnesses, meta, seed=0, jobs=None, only=None, e3_only=False):
+    global EVIDENCE, REPLAYS
+    if only or e3_only:
+        # a filtered (development) run decides only part of the property: its evidence must not replace
+        # the evidence of the registered command
+        EVIDENCE = os.path.join(WORK, "evidence-partial")
+        REPLAYS = os.path.join(EVIDENCE, "replays")
     t_start = time.time()
     os.makedirs(EVIDENCE, exist_ok=True)
     os.makedirs(REPLAYS, exist_ok=True)
